@@ -125,6 +125,12 @@ def _enabled_case(job):
     return res
 
 
+def _strict(key):
+    """strict mode by the command-line flag or by the documented property mode.strict-config (chosen by the item's name)"""
+    import zlib
+    return ["--strict-config"] if zlib.crc32(key.encode()) % 2 else ["--set", "mode.strict-config=$!True"]
+
+
 def _item_case(job):
     sc, item, naming, cfg_fmt, def_fmt, noise = job
     rid, alias, key, typ, a, b, bad, _badkind = item
@@ -132,7 +138,7 @@ def _item_case(job):
     m = {"unset": None, "a": a, "b": b, "bad": bad}
     argv, files = _layers(name, key, [m[v] for v in sc["vals"]], cfg_fmt, def_fmt, noise)
     if sc["strict"]:
-        argv = ["--strict-config"] + argv
+        argv = _strict(key) + argv
     o = runs.execute([], argv + ["plugins", "info", rid], cfg_files=files, keep_contents=False)
     return {"argv": o["argv"], "code": o["code"], "shown": _shown(o["out"], key), "err": o["err"][-300:],
             "files": [(n, d.decode()) for n, d in files]}
@@ -192,7 +198,7 @@ def _docvalue_case(job):
     vals[layer] = val
     argv, files = _layers(rid, key, vals, "json", ".pymarkdown")
     if strict:
-        argv = ["--strict-config"] + argv
+        argv = _strict(key) + argv
     o = runs.execute([], argv + ["plugins", "info", rid], cfg_files=files, keep_contents=False)
     return {"argv": o["argv"], "code": o["code"], "shown": _shown(o["out"], key), "err": o["err"][-200:]}
 
@@ -204,7 +210,7 @@ def _wrongtype_case(job):
     vals[layer] = bad
     argv, files = _layers(rid, key, vals, "json", ".pymarkdown")
     if strict:
-        argv = ["--strict-config"] + argv
+        argv = _strict(key) + argv
     o = runs.execute([], argv + ["plugins", "info", rid], cfg_files=files, keep_contents=False)
     return {"argv": o["argv"], "code": o["code"], "shown": _shown(o["out"], key), "err": o["err"][-200:]}
 
